@@ -4,7 +4,7 @@
 From Coq Require Import List ZArith NArith String Bool Lia.
 From SCC Require Import Base.Sexp Lang.CoreSyn Sem.AxSem Sem.CoreSem Model.Backend Model.Uniquify Model.Focus
      Model.FocusCheck Proof.FocusTheorems Proof.FocusKont Proof.FocusSim Proof.FocusRun Proof.FocusFrag Proof.FocusPres
-     Proof.UqAeq Proof.UqSim Proof.UqPres.
+     Proof.UqAeq Proof.UqSim Proof.UqPres Proof.FocusTyped.
 From SCC Require Import Model.FocusGuard.
 Import ListNotations.
 Open Scope list_scope.
@@ -189,4 +189,22 @@ Proof.
   rewrite <- (uniquify_preserves p p1 U W I SC fuel args) in *.
   eapply focus_prog_preserves_guarded; eauto.
   rewrite (sg_prog_uniquify bn kr p p1 U W I SC). exact SG.
+Qed.
+
+(* ---------- one static side condition: a syntactic guard or typing ---------- *)
+Lemma static_ok_clash_free : forall p, static_ok p = true -> forall fuel args, clash_free_prog fuel p args = true.
+Proof.
+  intros p H fuel args. unfold static_ok in H. apply orb_true_iff in H. destruct H as [H|H].
+  - apply orb_true_iff in H. destruct H as [H|H].
+    + apply (sg_clash_free_prog p false true eq_refl H).
+    + apply (sg_clash_free_prog p true false eq_refl H).
+  - apply andb_true_iff in H. destruct H as [H1 H2]. apply tc_clash_free_prog; assumption.
+Qed.
+
+Theorem uniquify_focus_preserves_static : forall p q args fuel,
+  pre_check p = true -> focus_wf p = true -> cs_prog p = true -> static_ok p = true -> focus_prog p = Ok q ->
+  good_end (snd (run_core fuel p args)) ->
+  exists fuel', run_fs fuel' q args = run_core fuel p args.
+Proof.
+  intros p q args fuel P W SC ST F G. eapply uniquify_focus_preserves; eauto. apply static_ok_clash_free; exact ST.
 Qed.
